@@ -247,6 +247,8 @@ def gen_valid(rng, CL):
     entries[('sweeper_params', 'initial_guess')] = lambda i: rng.choice(['spread', 'spread', 'copy', 'zero', 'random'])
     entries[('sweeper_params', 'do_coll_update')] = lambda i: rng.choice([True, False])
     entries[('sweeper_params', 'random_seed')] = lambda i: rng.randint(1, 1000)
+    # a tuple is a scalar for __dict_to_list (type(v) is list), whatever its length
+    entries[('sweeper_params', 'skip_residual_computation')] = lambda i: tuple(rng.sample(['IT_FINE', 'IT_UP'], rng.randint(1, 2)))
     entries[('', 'problem_class')] = lambda i: rng.choice(CL['H'] if heat else CL['P'])
     entries[('', 'sweeper_class')] = lambda i: rng.choice(CL['S'])
     entries[('', 'space_transfer_class')] = lambda i: rng.choice(CL['T'])
@@ -254,7 +256,7 @@ def gen_valid(rng, CL):
                 ('level_params', 'residual_type'): 0.6, ('level_params', 'user_note'): 0.25,
                 ('sweeper_params', 'node_type'): 0.4, ('sweeper_params', 'QI'): 0.75,
                 ('sweeper_params', 'initial_guess'): 0.6, ('sweeper_params', 'do_coll_update'): 0.3,
-                ('sweeper_params', 'random_seed'): 0.15,
+                ('sweeper_params', 'random_seed'): 0.15, ('sweeper_params', 'skip_residual_computation'): 0.3,
                 ('', 'space_transfer_class'): 1.0 if n > 1 else 0.2}
     present = [k for k in entries if rng.random() < optional.get(k, 1.0)]
     forced = rng.choice(present) if n > 1 else None
@@ -1111,6 +1113,11 @@ def part_frozen(ck, CL):
             if o[0] == 'set' and o[1] in fields and r[0] is not None:
                 ck.violation('assignment to declared attribute %s.%s raised %s' % (name, o[1], r[0]), replay,
                              match={'kind': 'frozen', 'object': name.split('.')[-1], 'what': 'declared-rejected'})
+                break
+            if o[0] == 'set' and 'verif_added' in o[1] and r[0] is not None and \
+                    any(p[0] == 'add' and p[1] == o[1] and q[0] is None for p, q in zip(ops[:ops.index(o)], real)):
+                ck.violation('attribute %s declared through add_attr cannot be assigned on %s (%s)' % (o[1], name, r[0]), replay,
+                             match={'kind': 'frozen', 'object': name.split('.')[-1], 'what': 'add_attr-ignored'})
                 break
         else:
             if real != model:
